@@ -27,7 +27,7 @@ Variable fi : smap.
 Definition right_branch (b : recursion) : bool :=
   match b with
   | RecLeftRight (RCat _ ops) l _ =>
-    match nth_error ops (S l) with
+    match operator_of ops l with
     | Some operand => negb (Nat.eqb (length (filter (is_right_tok g) (get fi (rid_of operand)))) 0)
     | None => false
     end
@@ -44,7 +44,7 @@ Proof.
   intros H. exists b. split; [reflexivity|].
   destruct b as [x a|x a|x a c]; cbn [right_branch]; try (injection H as <- <- <-; auto).
   destruct x as [| |? ops| | | | | | | ]; try (injection H as <- <- <-; auto).
-  destruct (nth_error ops (S a)) as [operand|]; [|injection H as <- <- <-; auto].
+  destruct (operator_of ops a) as [operand|]; [|injection H as <- <- <-; auto].
   destruct (Nat.eqb (length (filter (is_right_tok g) (get fi (rid_of operand)))) 0);
     cbn [negb]; injection H as <- <- <-; auto.
 Qed.
